@@ -162,12 +162,14 @@ def _gen_tree(rng, family, max_junctions, sorted_labels, thermal, kinds, big_lab
                 "from_junction": a, "to_junction": b, "pressure_ratio": _r(rng, 1.05, 1.5, 3),
                 "index": idx}})
             meta["branches"].append(("compressor", idx))
+            meta.setdefault("must_load", []).append(b)
         elif choice == "pump":
             idx = cnt.new("pump")
             ops.append({"fn": "create_pump", "kw": {
                 "from_junction": a, "to_junction": b, "std_type": rng.choice(PUMP_STD_TYPES),
                 "index": idx}})
             meta["branches"].append(("pump", idx))
+            meta.setdefault("must_load", []).append(b)
         elif choice == "press_control":
             idx = cnt.new("press_control")
             ops.append({"fn": "create_pressure_control", "kw": {
@@ -197,6 +199,11 @@ def _gen_tree(rng, family, max_junctions, sorted_labels, thermal, kinds, big_lab
     # loads
     nl = rng.randint(1, max(1, min(4, n - 1)))
     load_js = [jl[rng.randrange(1, n)] for _ in range(nl)]
+    # a pump / compressor feeding a dead end sits exactly on the zero-flow discontinuity of its
+    # characteristic (shut-off head vs. no lift for reverse flow): give its outlet a consumer
+    for j in meta.get("must_load", []):
+        if j not in load_js:
+            load_js.append(j)
     if "fc_leaf" in meta:
         load_js = [j for j in load_js if j != meta["fc_leaf"]] + [meta["fc_leaf"]]
     for j in load_js:
